@@ -128,13 +128,15 @@ impl Scenario for C10 {
             let mut t = text;
             if rng.chance(1, 3) {
                 // sprinkle characters whose UTF-16 code units contain 0x0A / 0x0D / 0x00 bytes or need surrogate pairs
-                let extra = ["\u{4E0A}", "\u{010A}", "\u{0A0A}", "\u{0D0A}", "\u{1F600}", "\u{10000A}", "\u{0100}", "\u{FEFF}", "\u{FFFD}", "\u{2028}", "\u{0085}"];
+                let extra = ["\u{4E0A}", "\u{010A}", "\u{0A0A}", "\u{0D0A}", "\u{1F600}", "\u{10000A}", "\u{0100}", "\u{FEFF}", "\u{FFFD}", "\u{2028}", "\u{0085}", "\u{4E00}", "\u{0A00}", "\u{0A41}", "\u{0D00}", "\u{000B}", "\u{00A0}", "\u{3000}"];
                 let pos: Vec<usize> = t.char_indices().map(|(i, _)| i).collect();
                 if !pos.is_empty() {
                     for _ in 0..1 + rng.below(4) {
                         let at = *rng.pick(&pos);
                         if t.is_char_boundary(at) {
-                            t.insert_str(at, *rng.pick(&extra));
+                            // runs of 1..4 tricky characters, so that their bytes become neighbours across code-unit boundaries
+                            let run: String = (0..1 + rng.below(4)).map(|_| *rng.pick(&extra)).collect();
+                            t.insert_str(at, &run);
                         }
                     }
                 }
@@ -171,7 +173,8 @@ impl Scenario for C10 {
                 for cp in from..from.saturating_add(count) {
                     let Some(c) = char::from_u32(cp) else { continue };
                     st.inc("steps.scalars");
-                    let text = format!("osu file format v14\n\n[Metadata]\nTitle:a{c}b\nArtist:{c}\nCreator:x\n");
+                    // byte-neighbour contexts: the scalar next to code units whose low / high byte is 0x00, 0x0A or 0x0D
+                    let text = format!("osu file format v14\n\n[Metadata]\nTitle:a{c}b\nArtist:{c}\nCreator:\u{100}{c}\u{A01}\nVersion:\u{A0A}{c}\u{10A}\nSource:\u{4E0A}{c}\u{4E00}\nTags:\u{D00}{c}{c}\u{D}x\u{A00}\n");
                     let mut first = None;
                     for enc in ENCS {
                         let b = encode_text(&text, enc);
